@@ -22,7 +22,7 @@ DOC = {
         'C05.R5': 'linux_reflink: backup clone dominates the overwrite; backup failure returns Err without touching dest; overwrite failure passes rename(tmp->dest) and returns Err; temp removed only on non-failing exits of the overwrite',
         'C05.R6': 'run_script counts only successes: Result<FileLen> is turned into a count only through filter_map(Result::ok)',
         'C05.R7': 'error discipline: no io::Result in dedupe.rs/reflink.rs/lock.rs is discarded (named exceptions)',
-        'C05.R8': 'the temporary is a sibling: temp_file derives from path.parent() and path.file_name()',
+        'C05.R8': 'the temporary is a sibling: temp_file derives from path.parent() and path.file_name(), has a random suffix, and its length is bounded (file-name part clamped so that name + suffix <= 255 bytes)',
         'C05.R10': 'no buffered writer (BufWriter/LineWriter, also inside another value) in dedupe.rs/reflink.rs/lock.rs/main.rs is dropped on a success path without a checked flush: its drop discards the error of the last write, after which the source would be removed (expected instances on this tree: 0; engine control in the fixture crate)',
         'C05.R9': 'the primitive wrappers are what their callers assume: remove = remove_file(path); unsafe_rename = rename(source, target); unsafe_copy = copy(source, target); hardlink = hard_link(target, link); symlink_internal = symlink(target, link); mkdirs = create_dir_all(path); each is the only mutating primitive in its wrapper and its error is returned',
     },
@@ -393,6 +393,20 @@ def r8(ctx, lib):
     # random suffix present
     rnd = sl.has_call(r'rand::|uuid::')
     ctx.check(rnd, rule, b.path + '|random', b.where(), 'random suffix', 'no random component in the temporary name')
+    # the name stays within NAME_MAX: the file-name part is clamped before the suffix is appended
+    from ..analysis import slice_const_values
+    bound = None
+    for c in sl.calls:
+        if c.matches(r'^std::cmp::min$|Ord::min$|::truncate$') or (c.matches(r'Iterator::take$') and not backslice(b, [c.args[0]]).has_call(r'rand::|uuid::')):
+            for v in slice_const_values(lib, backslice(b, c.args)):
+                k = const_int({'k': {'v': v}}) if v else None
+                if k is not None and 16 < k < 256:
+                    bound = k if bound is None else min(bound, k)
+    take = [const_int(c.args[1]) for c in sl.calls if c.matches(r'Iterator::take$') and len(c.args) > 1 and const_int(c.args[1]) is not None and const_int(c.args[1]) <= 64]
+    suffix = (take[0] if take else 24) + 1
+    ctx.check(bound is not None and bound + suffix <= 255, rule, b.path + '|bounded-name', b.where(), 'file-name part clamped to %s bytes + %d bytes of suffix <= 255 (NAME_MAX)' % (bound, suffix),
+              'the temporary name is the whole file name plus a %d byte suffix: for names longer than %d bytes it exceeds NAME_MAX, the rename in safe_remove fails with ENAMETOOLONG, and '
+              '`link` can never process such a file although --dry-run announces it' % (suffix, 255 - suffix))
 
 
 WRAPPERS = {
